@@ -22,7 +22,7 @@ REQUIRED_COUNTERS = ['apis_compared', 'invariant_evals']
 
 
 def time_limit(tier):
-    return 900 if tier == 'quick' else 5400
+    return common.default_limit(tier)
 
 
 def budget(tier):
@@ -45,10 +45,16 @@ def run_shard(tier, seed, idx, n, res, tmp):
     b = budget(tier)
     for ci in common.case_range(idx, b['models'], n, res):
         cs = common.case_seed(PROPERTY, seed, ci)
-        m = gm.generate(cs, gm.make_profile(p_linebreak_literal=0.15))
-        exp = irexpect.expect(m)
-        for li, lay in enumerate([None, gr.Layout(cs + 1), gr.Layout(cs + 2)]):
+        m = gm.generate(cs, gm.make_profile(p_linebreak_literal=0.15, p_multi_ns_doc=0.3))
+        exp0 = irexpect.expect(m)
+        for li, lay in enumerate([None, gr.Layout(cs + 1), gr.Layout(cs + 2, permute_doc_files=True)]):
             files = gr.render(m, lay)
+            exp = exp0
+            if lay is not None and any(o != sorted(o) for o in getattr(lay, 'doc_order', {}).values()):
+                # the files carrying the docs of a namespace were given in another order: the docs
+                # concatenate in that order (documented)
+                exp = irexpect.expect(m, lay.doc_order)
+                res.count('layouts_with_permuted_doc_files')
             klass, payload = boundary.compile_outcome(files)
             res.evaluations += 1
             replay = {'case': ci, 'layout': li, 'files': files}
